@@ -38,7 +38,9 @@ def run(ctx):
     # the repository's own suite, run with the verif tag and the default recorder: its pool traffic is a trace too
     suite = os.path.join(ctx.scratch, "suite-trace.ndjson")
     env = vf.goenv()
-    env.update({"VERIF_TRACE_FILE": suite, "GOGC": "off"})
+    tmpd = os.path.join(ctx.scratch, "suite-tmp")        # the suite's tests leave files in os.TempDir()
+    os.makedirs(tmpd, exist_ok=True)
+    env.update({"VERIF_TRACE_FILE": suite, "GOGC": "off", "TMPDIR": tmpd})
     import subprocess
     p = subprocess.run(["timeout", "600", "go", "test", "-tags", "verif", "-vet=off", "-count=1", "./..."], cwd=vf.REPO, env=env,
                        stdout=subprocess.PIPE, stderr=subprocess.STDOUT, text=True)
